@@ -229,7 +229,7 @@ theorem own_idle {cfg sh t l} (hg : GInv sh) (hl : LInv cfg sh t l) (hpc : l.pc 
         rcases hy with ⟨rfl, rfl⟩ | hy
         · exact ⟨rfl, hx⟩
         · exact hl.res y a hy
-      · simp [PcInv, hpc]
+      · simp [PcInv]
     · rename_i hx
       refine own_same hg ⟨hl.bi_lt, hl.ti_lt, hl.res, ?_⟩
       simpa [PcInv] using hx
@@ -452,7 +452,7 @@ theorem own_write {cfg sh t l} (hg : GInv sh) (hl : LInv cfg sh t l) (hpc : l.pc
       rw [hblk, if_neg (hold _ _ this.2.2)]; exact this.2.2
   · simp only [PcInv]
     refine ⟨hlk, hni, hns, hbi, ?_, ?_, ?_, ?_⟩
-    · simp [upd_apply, hbi, hti]
+    · simp [hbi, hti]
     · rw [hblk]; simp
     · rw [htbl]
       exact hnotin _ (hg.tcur_lt _ hg.cur_lt)
@@ -615,7 +615,7 @@ theorem own_alloc {cfg sh t l} (hg : GInv sh) (hl : LInv cfg sh t l) (hpc : l.pc
         rw [hblk]; exact this.2.2
     · simp only [PcInv]
       refine ⟨hlk, hni, hns, hbi, ?_, ?_, ?_, ?_, ?_⟩
-      · simp [upd_apply, hbi, hti]
+      · simp [hbi, hti]
       · intro o x h; rw [hblk] at h; rw [htbl]; exact hall o x h
       · intro o; rw [hblk]; exact habs o
       · intro o x h; rw [hblk] at h
